@@ -51,7 +51,16 @@ def run(ctx, res):
     hist = [h["text"] for h in hist if not any(s[0] == "missing" for s in h["stmts"])]
     if not ctx.thorough:
         ddls = ddls[::2]
-    allddl = ddls + gen + hist
+    # directed: schema / table / column names in every quoting style, each part quoted on its own (a schema must come out the same
+    # under the key schema or dataset in every mode)
+    directed = []
+    for q in H.QUOTES[:4]:
+        for q2 in H.QUOTES[:4]:
+            directed.append("CREATE TABLE %s.%s (%s int NOT NULL, note varchar(20));\nCREATE INDEX ix_n ON %s.%s (note);\n"
+                            % (q("sales"), q2("orders"), q2("id"), q("sales"), q2("orders")))
+    directed.append("CREATE TABLE `acme`.`sales`.`orders` (id int, note varchar(5));\n")
+    directed.append("CREATE TABLE `sales.orders` (id int, note varchar(5));\n")
+    allddl = ddls + gen + hist + directed
     base = ctx.impl.map([{"op": "run", "ddl": d} for d in allddl])
     res.evaluations += len(allddl)
     for mode in modes:
